@@ -501,14 +501,18 @@ class LazyTables(Harness):
         import passlib.crypto.des as D
         import passlib.crypto.digest as G
 
-        return [D._load_tables, G.lookup_hash]
+        import passlib.crypto._blowfish.base as BB
+
+        return [D._load_tables, G.lookup_hash, BB._init_constants]
 
     def fresh(self):
+        import passlib.crypto._blowfish.base as BB
         import passlib.crypto.des as D
         import passlib.crypto.digest as G
 
         D.PCXROT = D.IE3264 = D.SPE = D.CF6464 = None
         G._hash_info_cache.clear()
+        BB.BLOWFISH_P = BB.BLOWFISH_S = None
         return {}
 
     def body(self, st, op):
@@ -522,6 +526,14 @@ class LazyTables(Harness):
             from passlib.crypto.des import des_encrypt_block
 
             return lambda: des_encrypt_block((arg.encode() * 7)[:7], b"KGS!@#$%").hex()
+        if kind == "blowfish":
+            from passlib.crypto._blowfish.base import BlowfishEngine
+
+            def f():
+                e = BlowfishEngine()  # copies the lazily built constant tables
+                return (len(e.P), len(e.S), e.P[0], e.S[3][255])
+
+            return f
         if kind == "lookup":
             from passlib.crypto.digest import lookup_hash
 
@@ -806,6 +818,7 @@ def harness_specs(quick):
         add(f"backend_{hn}", ("verify", "has_backend"), b2)
     add("backend_bcrypt", ("hash", "verify"), 1)
     add("lazy_tables", ("desint:a", "desblock:b"), b2)
+    add("lazy_tables", ("blowfish:a", "blowfish:b"), b2)
     add("lazy_tables", ("lookup:sha256", "lookup:sha256"), b2)
     add("lazy_tables", ("lookup:sha-256", "hmac:sha256"), b2)
     add("pure_python", ("md4:a", "md4:b"), 1)
